@@ -63,8 +63,17 @@ func NewMerger(ki *kmerindex.Index, query *linear.Seq, filterParams *Params, max
 // Merge a filter hit into the collection.
 func (m *Merger) MergeFilterHit(h *Hit) {
 	Left := -h.Diagonal
-	if m.selfComparison && Left <= m.filterParams.MaxError {
-		return
+	if m.selfComparison {
+		// The aligner widens each trapezoid by maxIGap diagonals, so a tube
+		// closer than that to the main diagonal would let it find the
+		// sequence matching itself.
+		margin := m.filterParams.MaxError
+		if m.maxIGap > margin {
+			margin = m.maxIGap
+		}
+		if Left <= margin {
+			return
+		}
 	}
 	Top := h.To
 	Bottom := h.From
